@@ -333,7 +333,9 @@ fn check_in(c: &Case, rep: &mut Rep, outer: &Path, auto: &Path) -> Result<(), St
     plugin.sync_all();
     let state = plugin.state();
     let state = state.read().map_err(|_| "state poisoned")?;
-    let items: Vec<serde_json::Value> = state.value["treeItems"].as_array().cloned().unwrap_or_default().into_iter().filter(|i| i["label"] != "Sorted by name").collect();
+    let all_items: Vec<serde_json::Value> = state.value["treeItems"].as_array().cloned().unwrap_or_default();
+    let sorted_children: Vec<serde_json::Value> = all_items.iter().filter(|i| i["label"] == "Sorted by name").flat_map(|i| i["children"].as_array().cloned().unwrap_or_default()).collect();
+    let items: Vec<serde_json::Value> = all_items.into_iter().filter(|i| i["label"] != "Sorted by name").collect();
     let multi = built.len() >= 2;
     rep.label_if(multi, "ge2_transfers");
     rep.label_if(c.fault.is_some(), "fault");
@@ -371,22 +373,38 @@ fn check_in(c: &Case, rep: &mut Rep, outer: &Path, auto: &Path) -> Result<(), St
         } else {
             ensure!(mine.first().map_or(true, |i| i["cmdCtx"].is_null() && i["contextValue"].is_null()), "incomplete transfer offers save");
         }
-        // try to save whatever index the item has (or a guessed one for incomplete ones)
-        let try_idx = idx.or(mine.first().and_then(|it| items.iter().position(|i| std::ptr::eq(i, *it)).map(|p| p as u64)));
-        if let (Some(apply), Some(i)) = (state.apply_command, try_idx) {
-            let target = outer.join(format!("saved_{}.out", bi));
-            let params = serde_json::json!({"saveAs": target.to_str().unwrap()});
-            let ctx = serde_json::json!({"save":{"idx":i}});
-            let ok = apply(&state.internal_data, "save", params.as_object(), ctx.as_object());
-            if complete && c.cfg.allow_save {
-                ensure!(ok, "save command failed for complete transfer {}", b.serial);
+        // the same transfer is listed a second time below "Sorted by name": same state, and its own save context must work as well
+        let sorted_mine: Vec<&serde_json::Value> = sorted_children.iter().filter(|i| i["tooltip"].as_str().map_or(false, |t| t.contains(&needle) && t.starts_with(&format!("{}, LC id={},", ecu_name(x.ecu), x.lifecycle)))).collect();
+        ensure_eq!(sorted_mine.len(), mine.len(), "transfer {} listed {} times by occurrence but {} times in the sorted view", b.serial, mine.len(), sorted_mine.len());
+        for sm in &sorted_mine {
+            ensure!((sm["iconPath"] == "file") == complete, "sorted view and occurrence view disagree on the completeness of transfer {}", b.serial);
+        }
+        // try to save through every save context offered for this transfer (or a guessed index for incomplete ones)
+        let mut idxs: Vec<u64> = mine.iter().chain(sorted_mine.iter()).filter_map(|i| i["cmdCtx"]["save"]["idx"].as_u64()).collect();
+        if idxs.is_empty() {
+            if let Some(g) = mine.first().and_then(|it| items.iter().position(|i| std::ptr::eq(i, *it)).map(|p| p as u64)) {
+                idxs.push(g);
             }
-            if ok {
-                let saved = std::fs::read(&target).map_err(|e| format!("saved file unreadable: {}", e))?;
-                ensure!(complete, "save command wrote data for a transfer that is not complete (serial {})", b.serial);
-                ensure!(saved == b.content, "saved file of transfer {} differs from the original ({} vs {} bytes)", b.serial, saved.len(), b.content.len());
+        }
+        if complete && c.cfg.allow_save {
+            ensure_eq!(idxs.len(), 2, "save contexts offered for complete transfer {}", b.serial);
+        }
+        for (k, i) in idxs.iter().enumerate() {
+            if let Some(apply) = state.apply_command {
+                let target = outer.join(format!("saved_{}_{}.out", bi, k));
+                let params = serde_json::json!({"saveAs": target.to_str().unwrap()});
+                let ctx = serde_json::json!({"save":{"idx":i}});
+                let ok = apply(&state.internal_data, "save", params.as_object(), ctx.as_object());
+                if complete && c.cfg.allow_save {
+                    ensure!(ok, "save command failed for complete transfer {} (save context #{} idx {})", b.serial, k, i);
+                }
+                if ok {
+                    let saved = std::fs::read(&target).map_err(|e| format!("saved file unreadable: {}", e))?;
+                    ensure!(complete, "save command wrote data for a transfer that is not complete (serial {})", b.serial);
+                    ensure!(saved == b.content, "file saved through save context #{} (idx {}) of transfer {} '{}' differs from the original ({} vs {} bytes)", k, i, b.serial, b.name, saved.len(), b.content.len());
+                }
+                let _ = std::fs::remove_file(&target);
             }
-            let _ = std::fs::remove_file(&target);
         }
         // auto save expectation
         if let (Some(g), true) = (glob, complete) {
